@@ -210,7 +210,7 @@ def _class_ds(case):
         from kappadata.wrappers import SubsetWrapper
         from kappadata.utils.getall_as_tensor import getall_as_tensor
         classes = list(case["classes"])
-        n_cls = case.get("n_classes") or (max(classes) + 1 if classes else 1)
+        n_cls = max(case.get("n_classes") or (max(classes) + 1 if classes else 1), 1)     # all-unlabeled layouts: max + 1 = 0
         extra = [(k * 2 + 1) % n_cls for k in range(len(classes) + 2)]
         root = DS(classes=extra + classes[::-1], n_classes=n_cls)
         getall_as_tensor(root, item="class")
